@@ -190,8 +190,10 @@ fn gen_name(rng: &mut Rng) -> String {
         7 => return "..".to_string(),
         8 => return "/".to_string(),
         9 => return String::new(),
-        10 => return "lnk/x".to_string(),
-        11 => return "./lnk/a/b".to_string(),
+        // several members in the SAME directory below the link (a per-directory shortcut must not let the
+        // second one through after the first was refused)
+        10 => return format!("lnk/{}", rng.pick(&["x", "y", "z", "x2"])),
+        11 => return format!("./lnk/a/{}", rng.pick(&["b", "c"])),
         12 => return "lnk".to_string(),
         _ => {}
     }
@@ -767,7 +769,7 @@ pub fn run(ctx: &Ctx) -> Report {
 
     for form in [Form::Whole, Form::GlobAll, Form::Listed(0)] {
         let case = Case {
-            members: ["lnk/x", "./lnk/a/b", "lnk", "ok", "lnk/../lnk/y"].iter().enumerate().map(|(i, n)| simple_member(n, i)).collect(),
+            members: ["lnk/x", "lnk/y", "lnk/z", "./lnk/a/b", "lnk/a/c", "lnk", "ok", "lnk/../lnk/y"].iter().enumerate().map(|(i, n)| simple_member(n, i)).collect(),
             interleave: false, compress: false, form, out_mode: 1, out_exists: true, dir_symlink: true,
         };
         check_case(&mut rep, &mut model, &bin, &case, &policy, "corpus");
